@@ -881,7 +881,9 @@ def d7(cx: Cx, ob: Ob) -> None:
     hdr = {ev.line for c, ev, ctx in ws.calls("writerow") if not ctx.loops}
     if len(hdr) != 1:
         ob.violate(w.qualname, w.where, f"write_triples writes the header {len(hdr)} times", detail="header-count")
-    nexts = {ev.line for c, ev, ctx in rs.calls("next")}
+    # a `next(reader)` is counted where it is EVALUATED (a statement of its own or the value of a binding) - not where
+    # the name bound to its result is mentioned again (a log message showing the header that was skipped)
+    nexts = {ev.line for c, ev, ctx in rs.calls("next") if (ev.kind == "bind" and ev.b == c) or (ev.kind == "expr" and ev.a == c)} or {ev.line for c, ev, ctx in rs.calls("next")}
     if len(nexts) != 1:
         ob.violate(r.qualname, r.where, f"read_triples skips {len(nexts)} header rows; write_triples writes one", detail="header-skip")
     got = None
